@@ -2,3 +2,9 @@
 import NcVerif.Model.Basic
 import NcVerif.Model.Caps
 import NcVerif.Driver.CapsD
+import NcVerif.Model.Utf8
+import NcVerif.Model.Framing
+import NcVerif.Driver.FramingD
+import NcVerif.Model.Session
+import NcVerif.Driver.SessionD
+import NcVerif.Props.C08
